@@ -77,6 +77,7 @@ typedef struct qgen {
 	int suspend_depth_max;
 	int width_pct;       // chance that a concurrent queue gets a small explicit width
 	int use_main;        // include the main queue, drained by sim thread 0
+	int dispatch_main;   // ... or (with use_main) the main thread calls dispatch_main() and the queue becomes an ordinary serial queue
 	int main_tree;       // queues may target the main queue; any item outside that tree may dispatch_sync into it
 	int specific;        // set queue-specific keys
 	int blockobj;        // barrier items may be DISPATCH_BLOCK_BARRIER block objects
